@@ -227,3 +227,22 @@ PROPS["C13"] = mklib("C13", "lib13", GL.lib13_fixed(), GL.gen13, 150, 6000, GL.o
                      "operation sequences on real temporary files/directories with explicitly set modification times: files of sizes 0,1,5,8191,8192,8193,65537, "
                      "directories with name sets chosen to collide under concatenation, removal, touch; three checkers x three stamping routes; checks of every earlier stamp",
                      proj_name="C13: stamps (hashes as first-occurrence indices), verdicts, bytes read after stamp_reader, write results")
+
+
+# what is stated but not (yet) proved in Lean, per property: covered only by the correspondence and the oracle
+STATED_NOT_PROVED = {
+    "C01": ["programs with writes: full statement (outputs and contents equal the from-scratch build) — proved for write-free programs (C01_sources); local theorems only for writes"],
+    "C02": ["minimality w.r.t. the from-scratch build for exact checkers ('no task executed that a from-scratch build would not execute')",
+            "idempotence for programs with writes"],
+    "C03": ["C03_sources / closure invariant of the bottom-up build (under ShallowReq and Reported)"],
+    "C04": ["at most one execution per task per bottom-up build (C04_bu_once)"],
+    "C05": ["global clause 'a build that returns leaves every reader dependent on the generator' is false on the real code (finding K4; kernel-checked counterexample C05_history_breaks_noHidden)"],
+    "C07": ["re-entry freedom inside bottom-up builds (only NoReservedDone is proved there)"],
+    "C13": ["OS behaviour (metadata, read_dir order, stale handles) is modelled, not proved", "SHA-256 injectivity is a hypothesis"],
+    "C15": ["that the Rust code keys on TypeId (downcast in eq_any) — correspondence only"],
+    "C16": ["that the two DFS change sets are the only hash-ordered iterations in the code — code reading + multi-process correspondence"],
+    "C19": ["'later builds return from-scratch results' inherits C01's scope (write-free); spurious abort after an abort = finding K6"],
+    "C20": ["role-changing programs: no positive theorem (finding K3)"],
+}
+for _p, _l in STATED_NOT_PROVED.items():
+    PROPS[_p]["stated_not_proved"] = _l
